@@ -10,6 +10,10 @@ Regenerates, from the *current* Rust sources:
   gen/TempName.v  the atomic operations performed on TEMP_FILE_COUNTER by temp_file_name,
                   and the pieces of the name format
   gen/Funs.v      Gallina translations of the one-expression arithmetic helpers in bits.rs
+  gen/Funs2.v     Gallina translations of the straight-line integer functions listed in FUNS2 (let / let mut,
+                  assignment, if/else with early return, comparisons, casts, tuples, calls of each other and of
+                  the helpers of Funs.v), arithmetic in a build mode as in Funs.v; Proofs/GenTie*.v prove that
+                  each one IS the hand-written model function
 
 The extractor is deliberately dumb (regex over items whose shape is stable in this crate) and
 fails closed: anything it cannot find raises, and the caller reports a broken tie.
@@ -547,6 +551,787 @@ def gen_funs(consts):
 
 
 
+# ----------------------------------------------------------------------------
+# Funs2.v: Gallina for straight-line integer functions (statements, if/else, early return, tuples)
+# ----------------------------------------------------------------------------
+#
+# Supported subset (anything else raises GenError naming the function):
+#   fn f([&self,] p: usize|u64|bool, ...) -> usize|u64|bool|(T, T, ...)
+#   let [mut] x [: T] = e;   let (a, b) = e;   x = e;   x op= e;   return e;
+#   if c { .. } [else if ..] [else { .. }]   as statement (with assignments / early return) or as expression
+#   + - * / % << >>  (mode-dependent checked operations, as in Funs.v)    & | ^ !  (total)
+#   < <= > >= == !=  && || !      e as usize|u64  (identity on integers, 0/1 on bool)
+#   integer literals, true/false, named constants of Consts.v (Self::X, Type::X, bits::X),
+#   TABLE[e] for the tables of Tables.v (bounds-checked), (e1, e2) tuples,
+#   calls of other translated functions, of the helpers of Funs.v, cmp::min / cmp::max,
+#   self.<field>.len()  (becomes a parameter <field>_len),
+#   the u64 intrinsics leading_zeros / trailing_zeros / count_ones / reverse_bits (as modelled in Model/Bits.v).
+# Evaluation order is Rust's (left operand, right operand, operation).
+
+# (generated name, file, impl type or None for a module-level fn, fn name)
+FUNS2 = [
+    ("low_set", "bits.rs", None, "low_set"),
+    ("high_set", "bits.rs", None, "high_set"),
+    ("bit_len", "bits.rs", None, "bit_len"),
+    ("reverse_low", "bits.rs", None, "reverse_low"),
+    ("split_offset", "bits.rs", None, "split_offset"),
+    ("rl_code_len", "rl_vector.rs", "RLBuilder", "code_len"),
+    ("rl_blocks", "rl_vector.rs", "RLVector", "blocks"),
+    ("rlb_blocks", "rl_vector.rs", "RLBuilder", "blocks"),
+    ("si_parameters", "rl_vector/index.rs", "SampleIndex", "parameters"),
+    ("get_buckets", "sparse_vector.rs", "SparseBuilder", "get_buckets"),
+    ("raw_size_by_params", "raw_vector.rs", "RawVector", "size_by_params"),
+    ("iv_size_by_params", "int_vector.rs", "IntVector", "size_by_params"),
+    ("rs_blocks", "bit_vector/rank_support.rs", "RankSupport", "blocks"),
+    ("ss_superblocks", "bit_vector/select_support.rs", "SelectSupport", "superblocks"),
+    ("ss_long_superblocks", "bit_vector/select_support.rs", "SelectSupport", "long_superblocks"),
+    ("ss_short_superblocks", "bit_vector/select_support.rs", "SelectSupport", "short_superblocks"),
+    ("absent_option_size", "serialize.rs", None, "absent_option_size"),
+]
+
+# which prefix the constants of a file carry in Consts.v (see gen_consts), and where a type / module lives
+FILE_PREFIX = {"bits.rs": "bits_", "bit_vector/rank_support.rs": "rank_", "bit_vector/select_support.rs": "select_",
+               "sparse_vector.rs": "sparse_", "rl_vector.rs": "rl_", "rl_vector/index.rs": "index_"}
+QUAL_FILE = {"bits": "bits.rs", "RankSupport": "bit_vector/rank_support.rs", "SelectSupport": "bit_vector/select_support.rs",
+             "SparseVector": "sparse_vector.rs", "SparseBuilder": "sparse_vector.rs", "RLVector": "rl_vector.rs",
+             "RLBuilder": "rl_vector.rs", "SampleIndex": "rl_vector/index.rs", "RawVector": "raw_vector.rs",
+             "IntVector": "int_vector.rs", "serialize": "serialize.rs"}
+TABLES2 = {"LOW_SET": "LOW_SET", "HIGH_SET": "HIGH_SET"}
+INTRINSICS = {"leading_zeros": "leading_zeros", "trailing_zeros": "trailing_zeros", "count_ones": "popcount",
+              "reverse_bits": "reverse_bits"}
+INT_TYPES = ("usize", "u64")
+RUST_UNSUPPORTED = {"match", "loop", "while", "for", "unsafe", "break", "continue", "fn", "move", "ref", "struct",
+                    "impl", "dyn", "where", "in", "const", "static", "async", "await"}
+COQ_RESERVED = {"m", "bind", "Ok", "Panic", "OOB", "fun", "if", "then", "else", "let", "in", "match", "with", "end", "as",
+                "return", "forall", "exists", "mod", "N", "idx", "fix", "cofix", "Type", "Prop", "Set", "at", "using",
+                "where", "for", "IF", "negb", "andb", "orb", "true", "false", "res", "mode", "bool", "tt", "wnot",
+                "uadd", "usub", "umul", "udiv", "ushl", "ushr", "xorb", "popcount", "reverse_bits", "leading_zeros", "trailing_zeros"}
+
+TOK2 = re.compile(r"\s*(0x[0-9A-Fa-f_]+(?:usize|u64)?|0b[01_]+(?:usize|u64)?|[0-9][0-9_]*(?:usize|u64)?|[A-Za-z_][A-Za-z0-9_]*"
+                  r"|<<=|>>=|<<|>>|<=|>=|==|!=|&&|\|\||\+=|-=|\*=|/=|%=|&=|\|=|\^=|->|::|[-+*/%&|^!<>=(){}\[\],;:.])")
+
+
+def skip_string(text, j):
+    """text[j] == '"': index just after the closing quote."""
+    j += 1
+    while j < len(text):
+        if text[j] == "\\":
+            j += 2
+            continue
+        if text[j] == '"':
+            return j + 1
+        j += 1
+    raise GenError("unterminated string literal")
+
+
+def match_brace(text, i):
+    """text[i] == '{': index of the matching '}' (string literals skipped)."""
+    depth, j = 0, i
+    while j < len(text):
+        c = text[j]
+        if c == '"':
+            j = skip_string(text, j)
+            continue
+        if c == "{":
+            depth += 1
+        elif c == "}":
+            depth -= 1
+            if depth == 0:
+                return j
+        j += 1
+    raise GenError("unbalanced braces")
+
+
+def depth0_blocks(text):
+    """[(header, body_start, body_end)] for every `header { body }` at brace depth 0 of text."""
+    out, j, start = [], 0, 0
+    while j < len(text):
+        c = text[j]
+        if c == '"':
+            j = skip_string(text, j)
+            continue
+        if c == ";":
+            start = j + 1
+        elif c == "{":
+            e = match_brace(text, j)
+            out.append((text[start:j], j + 1, e))
+            j = e
+            start = e + 1
+        j += 1
+    return out
+
+
+def find_fn(rel, impl_ty, name):
+    """(signature text, body text) of the one fn `name` in the inherent impl of impl_ty (or at module level)."""
+    text = strip_comments(read(rel))
+    where = "%s::%s%s" % (rel, impl_ty + "::" if impl_ty else "", name)
+    scopes = []
+    if impl_ty is None:
+        scopes.append(text)
+    else:
+        rx = re.compile(r"^\s*(?:#\[[^\]]*\]\s*)*impl\s*(?:<[^{]*?>)?\s*" + re.escape(impl_ty) + r"\s*(?:<[^{]*>)?\s*$")
+        for hdr, a, b in depth0_blocks(text):
+            if rx.match(hdr):
+                scopes.append(text[a:b])
+    found = []
+    for sc in scopes:
+        for hdr, a, b in depth0_blocks(sc):
+            mm = re.search(r"\bfn\s+" + re.escape(name) + r"\s*(\(.*)$", hdr, re.S)
+            if mm and not re.search(r"\b(?:impl|trait|mod)\b", hdr):
+                found.append((mm.group(1).strip(), sc[a:b]))
+    if len(found) != 1:
+        raise GenError("function %s: found %d definitions, expected exactly 1" % (where, len(found)))
+    return found[0]
+
+
+class Fn2:
+    """Parser + translator of one function of the supported subset."""
+
+    def __init__(self, gname, rel, impl_ty, name, sig, body, consts, known):
+        self.gname, self.rel, self.impl_ty, self.name = gname, rel, impl_ty, name
+        self.where = "%s::%s%s" % (rel, impl_ty + "::" if impl_ty else "", name)
+        self.consts, self.known = consts, known
+        self.sig_t = self.tokenize(sig)
+        self.t = self.tokenize(body)
+        self.i = 0
+        self.idents = set(x for x in self.t + self.sig_t if re.match(r"[A-Za-z_]", x))
+        self.ntmp = 0
+        self.tmp_prefix = next(p for p in ("t", "tmp", "aux", "gen_tmp") if not any(re.fullmatch(p + r"\d+", x) for x in self.idents))
+        self.fieldlens = []
+
+    def fail(self, msg):
+        raise GenError("function %s: %s" % (self.where, msg))
+
+    def tokenize(self, s):
+        pos, out = 0, []
+        s = s.strip()
+        while pos < len(s):
+            mm = TOK2.match(s, pos)
+            if not mm:
+                self.fail("unsupported token at %r" % s[pos:pos + 20])
+            out.append(mm.group(1))
+            pos = mm.end()
+        for x in out:
+            if x in RUST_UNSUPPORTED:
+                self.fail("unsupported construct `%s`" % x)
+        return out
+
+    # ---- token stream
+    def peek(self, k=0):
+        return self.t[self.i + k] if self.i + k < len(self.t) else None
+
+    def eat(self, want=None):
+        if self.i >= len(self.t):
+            self.fail("unexpected end of body" + (" (wanted `%s`)" % want if want else ""))
+        x = self.t[self.i]
+        if want is not None and x != want:
+            self.fail("expected `%s`, found `%s`" % (want, x))
+        self.i += 1
+        return x
+
+    # ---- signature: ( params ) -> ret
+    def parse_sig(self):
+        saved = (self.t, self.i)
+        self.t, self.i = self.sig_t, 0
+        self.eat("(")
+        params, has_self = [], False
+        while self.peek() != ")":
+            if self.peek() == "&" and self.peek(1) == "self":
+                self.eat(), self.eat()
+                has_self = True
+            else:
+                if self.peek() == "mut":
+                    self.fail("`mut` parameter")
+                pn = self.eat()
+                if not re.match(r"[A-Za-z_]", pn):
+                    self.fail("unsupported parameter pattern `%s`" % pn)
+                self.eat(":")
+                params.append((pn, self.parse_type()))
+            if self.peek() == ",":
+                self.eat()
+        self.eat(")")
+        if self.peek() is None:
+            self.fail("no return type")
+        self.eat("->")
+        ret = self.parse_type()
+        if self.peek() is not None:
+            self.fail("unsupported signature tail `%s`" % self.peek())
+        self.t, self.i = saved
+        return params, has_self, ret
+
+    def parse_type(self):
+        x = self.eat()
+        if x in INT_TYPES:
+            return "int"
+        if x == "bool":
+            return "bool"
+        if x == "(":
+            parts = []
+            while self.peek() != ")":
+                parts.append(self.parse_type())
+                if self.peek() == ",":
+                    self.eat()
+            self.eat(")")
+            if len(parts) < 2:
+                self.fail("unsupported type")
+            return ("tuple", tuple(parts))
+        self.fail("unsupported type `%s`" % x)
+
+    # ---- blocks and statements
+    def parse_block(self):
+        """after `{`: ([statements], tail expression or None); consumes the closing `}`."""
+        items, tail = [], None
+        while True:
+            x = self.peek()
+            if x == "}":
+                self.eat()
+                return items, tail
+            if tail is not None:
+                self.fail("expression in the middle of a block is not followed by `;`")
+            if x == "let":
+                self.eat()
+                mut = False
+                if self.peek() == "mut":
+                    self.eat()
+                    mut = True
+                if self.peek() == "(":
+                    self.eat()
+                    names = []
+                    while self.peek() != ")":
+                        if self.peek() == "mut":
+                            self.fail("`mut` inside a tuple pattern")
+                        names.append(self.eat())
+                        if self.peek() == ",":
+                            self.eat()
+                    self.eat(")")
+                    pat = ("tuple", names)
+                else:
+                    pat = ("name", self.eat())
+                for nm in (pat[1] if pat[0] == "tuple" else [pat[1]]):
+                    if not re.match(r"[A-Za-z_][A-Za-z0-9_]*$", nm) or nm == "_":
+                        self.fail("unsupported let pattern `%s`" % nm)
+                ty = None
+                if self.peek() == ":":
+                    self.eat()
+                    ty = self.parse_type()
+                self.eat("=")
+                e = self.parse_expr()
+                self.eat(";")
+                items.append(("let", pat, mut, ty, e))
+            elif x == "return":
+                self.eat()
+                e = self.parse_expr()
+                if self.peek() == ";":
+                    self.eat()
+                items.append(("return", e))
+            elif x == "if":
+                e = self.parse_if()
+                if self.peek() == "}":
+                    tail = e
+                else:
+                    if self.peek() == ";":
+                        self.eat()
+                    items.append(("ifs", e))
+            elif re.match(r"[A-Za-z_]", x or "") and self.peek(1) in ("=", "+=", "-=", "*=", "/=", "%=", "<<=", ">>=", "&=", "|=", "^="):
+                nm = self.eat()
+                op = self.eat()
+                e = self.parse_expr()
+                self.eat(";")
+                items.append(("assign", nm, op[:-1], e))
+            else:
+                e = self.parse_expr()
+                if self.peek() == "}":
+                    tail = e
+                else:
+                    self.fail("expression statement (only let / assignment / if / return are supported)")
+
+    def parse_if(self):
+        self.eat("if")
+        c = self.parse_expr()
+        self.eat("{")
+        a = self.parse_block()
+        b = None
+        if self.peek() == "else":
+            self.eat()
+            if self.peek() == "if":
+                b = ([], self.parse_if())
+            else:
+                self.eat("{")
+                b = self.parse_block()
+        return ("if", c, a, b)
+
+    # ---- expressions, by Rust precedence (lowest first)
+    BIN_LEVELS = [["||"], ["&&"], ["==", "!=", "<", ">", "<=", ">="], ["|"], ["^"], ["&"], ["<<", ">>"], ["+", "-"], ["*", "/", "%"]]
+
+    def parse_expr(self, lvl=0):
+        if lvl == len(self.BIN_LEVELS):
+            return self.parse_cast()
+        v = self.parse_expr(lvl + 1)
+        n = 0
+        while self.peek() in self.BIN_LEVELS[lvl]:
+            op = self.eat()
+            n += 1
+            if lvl == 2 and n > 1:
+                self.fail("chained comparison")
+            w = self.parse_expr(lvl + 1)
+            v = ("bin", op, v, w)
+        return v
+
+    def parse_cast(self):
+        v = self.parse_unary()
+        while self.peek() == "as":
+            self.eat()
+            ty = self.eat()
+            if ty not in INT_TYPES:
+                self.fail("unsupported cast `as %s`" % ty)
+            v = ("cast", v)
+        return v
+
+    def parse_unary(self):
+        if self.peek() == "!":
+            self.eat()
+            return ("not", self.parse_unary())
+        if self.peek() in ("-", "*", "&"):
+            self.fail("unsupported unary operator `%s`" % self.peek())
+        return self.parse_postfix()
+
+    def parse_postfix(self):
+        v = self.parse_atom()
+        while self.peek() in (".", "["):
+            if self.eat() == "[":
+                e = self.parse_expr()
+                self.eat("]")
+                v = ("index", v, e)
+            else:
+                nm = self.eat()
+                if self.peek() == "(":
+                    self.eat()
+                    self.eat(")")
+                    v = ("method", v, nm)
+                else:
+                    v = ("field", v, nm)
+        return v
+
+    def parse_atom(self):
+        x = self.eat()
+        if x == "(":
+            parts = [self.parse_expr()]
+            while self.peek() == ",":
+                self.eat()
+                if self.peek() != ")":
+                    parts.append(self.parse_expr())
+            self.eat(")")
+            return parts[0] if len(parts) == 1 else ("tuple", parts)
+        if x == "if":
+            self.i -= 1
+            return self.parse_if()
+        if x == "{":
+            return ("block", self.parse_block())
+        if re.match(r"[0-9]", x):
+            return ("lit", parse_int(x))
+        if x in ("true", "false"):
+            return ("bool", x)
+        if re.match(r"[A-Za-z_]", x):
+            path = [x]
+            while self.peek() == "::":
+                self.eat()
+                if self.peek() == "<":
+                    self.fail("generic arguments in a path")
+                path.append(self.eat())
+            if self.peek() == "(":
+                self.eat()
+                args = []
+                while self.peek() != ")":
+                    args.append(self.parse_expr())
+                    if self.peek() == ",":
+                        self.eat()
+                self.eat(")")
+                return ("call", path, args)
+            return ("path", path)
+        self.fail("unexpected token `%s`" % x)
+
+    # ---- translation. A translated expression is R(binds, text, ty, pure): `binds` are (term of type res _, name)
+    # pairs to be run in that order before `text`; a pure text denotes the value itself (N / bool / product),
+    # otherwise text is a term of type res _.
+    def fresh(self):
+        self.ntmp += 1
+        return "%s%d" % (self.tmp_prefix, self.ntmp)
+
+    def cname(self, rust_name):
+        n = rust_name + "_" if (rust_name in COQ_RESERVED or re.match(r"f2?_", rust_name)) else rust_name
+        if n != rust_name and n in self.idents:
+            self.fail("cannot rename variable `%s`" % rust_name)
+        return n
+
+    @staticmethod
+    def monadic(r):
+        return r[1] if not r[3] else "(Ok %s)" % r[1]
+
+    def inline(self, r):
+        """One-line term of type res _ for r (binds included)."""
+        text = self.monadic(r)
+        for term, x in reversed(r[0]):
+            text = "(bind %s (fun %s => %s))" % (term, x, text)
+        return text
+
+    @staticmethod
+    def wrap(binds, inner, pad):
+        for term, x in reversed(binds):
+            inner = "%sbind %s (fun %s =>\n%s)" % (pad, term, x, inner)
+        return inner
+
+    def atom(self, r, binds):
+        """Pure text for the value of r; whatever has to run first is appended to binds."""
+        binds.extend(r[0])
+        if r[3]:
+            return r[1]
+        x = self.fresh()
+        binds.append((r[1], x))
+        return x
+
+    def with_vals(self, es, env, k):
+        """Evaluate the expressions left to right; k(pure texts, types) -> (text, type, pure)."""
+        binds, names, tys = [], [], []
+        for e in es:
+            r = self.expr(e, env)
+            names.append(self.atom(r, binds))
+            tys.append(r[2])
+        text, ty, pure = k(names, tys)
+        return (binds, text, ty, pure)
+
+    def want(self, ty, expected, what):
+        if ty != expected:
+            self.fail("%s: expected %s, found %s" % (what, expected, ty))
+
+    def const_name(self, path):
+        """Name in Consts.v of a constant path, or None if the path does not look like a constant."""
+        c = path[-1]
+        if not re.match(r"[A-Z][A-Z0-9_]*$", c):
+            return None
+        if len(path) == 1:
+            f = self.rel
+        elif path[-2] == "Self":
+            if not self.impl_ty:
+                self.fail("`Self::` outside an impl")
+            f = self.rel
+        else:
+            f = QUAL_FILE.get(path[-2])
+        if f is None or f not in FILE_PREFIX:
+            self.fail("constant `%s`: unknown module or type" % "::".join(path))
+        n = FILE_PREFIX[f] + c
+        if n not in self.consts:
+            self.fail("constant `%s` is not in Consts.v (as %s)" % ("::".join(path), n))
+        return n
+
+    def expr(self, e, env):
+        k = e[0]
+        if k == "lit":
+            if e[1] >= 2 ** 64:
+                self.fail("literal out of range")
+            return ([], "%d" % e[1], "int", True)
+        if k == "bool":
+            return ([], e[1], "bool", True)
+        if k == "path":
+            path = e[1]
+            if len(path) == 1 and path[0] in env:
+                return ([], env[path[0]][0], env[path[0]][1], True)
+            if len(path) == 1 and path[0] in TABLES2:
+                self.fail("table `%s` used without an index" % path[0])
+            c = self.const_name(path)
+            if c is None:
+                self.fail("unknown name `%s`" % "::".join(path))
+            return ([], c, "int", True)
+        if k == "cast":
+            def f(ns, tys):
+                if tys[0] == "int":
+                    return (ns[0], "int", True)
+                if tys[0] == "bool":
+                    return ("(if %s then 1 else 0)" % ns[0], "int", True)
+                self.fail("cast of a %s" % (tys[0],))
+            return self.with_vals([e[1]], env, f)
+        if k == "not":
+            def f(ns, tys):
+                if tys[0] == "bool":
+                    return ("(negb %s)" % ns[0], "bool", True)
+                if tys[0] == "int":
+                    return ("(wnot %s)" % ns[0], "int", True)
+                self.fail("`!` of a %s" % (tys[0],))
+            return self.with_vals([e[1]], env, f)
+        if k == "bin":
+            op = e[1]
+            if op in ("&&", "||"):
+                a, b = self.expr(e[2], env), self.expr(e[3], env)
+                self.want(a[2], "bool", "left operand of " + op)
+                self.want(b[2], "bool", "right operand of " + op)
+                binds = []
+                x = self.atom(a, binds)
+                if b[3] and not b[0]:
+                    return (binds, "(%s %s %s)" % ("andb" if op == "&&" else "orb", x, b[1]), "bool", True)
+                # short circuit: the right operand runs only when it is needed
+                text = ("(if %s then %s else (Ok false))" if op == "&&" else "(if %s then (Ok true) else %s)") % (x, self.inline(b))
+                return (binds, text, "bool", False)
+
+            def f(ns, tys):
+                a, b = ns
+                if op in ("==", "!=", "<", ">", "<=", ">="):
+                    if tys[0] != tys[1] or tys[0] not in ("int", "bool"):
+                        self.fail("comparison `%s` of %s and %s" % (op, tys[0], tys[1]))
+                    if tys[0] == "bool":
+                        if op not in ("==", "!="):
+                            self.fail("ordering comparison of booleans")
+                        t = "(Bool.eqb %s %s)" % (a, b)
+                        return (t if op == "==" else "(negb %s)" % t, "bool", True)
+                    t = {"==": "(%s =? %s)", "!=": "(negb (%s =? %s))", "<": "(%s <? %s)", "<=": "(%s <=? %s)",
+                         ">": "(%s <? %s)", ">=": "(%s <=? %s)"}[op] % ((b, a) if op in (">", ">=") else (a, b))
+                    return (t, "bool", True)
+                if op in ("&", "|", "^"):
+                    if tys[0] == "bool" and tys[1] == "bool":
+                        return ("(%s %s %s)" % ({"&": "andb", "|": "orb", "^": "xorb"}[op], a, b), "bool", True)
+                    self.want(tys[0], "int", "left operand of " + op)
+                    self.want(tys[1], "int", "right operand of " + op)
+                    return ("(%s %s %s)" % ({"&": "N.land", "|": "N.lor", "^": "N.lxor"}[op], a, b), "int", True)
+                self.want(tys[0], "int", "left operand of " + op)
+                self.want(tys[1], "int", "right operand of " + op)
+                fn = {"+": "uadd", "-": "usub", "*": "umul", "/": "udiv", "%": "f2_urem", "<<": "ushl", ">>": "ushr"}[op]
+                return ("(%s m %s %s)" % (fn, a, b), "int", False)
+            return self.with_vals([e[2], e[3]], env, f)
+        if k == "tuple":
+            def f(ns, tys):
+                return ("(%s)" % ", ".join(ns), ("tuple", tuple(tys)), True)
+            return self.with_vals(e[1], env, f)
+        if k == "index":
+            if e[1][0] != "path" or len(e[1][1]) != 1 or e[1][1][0] not in TABLES2:
+                self.fail("indexing of anything but a table of Tables.v")
+            tab = TABLES2[e[1][1][0]]
+
+            def f(ns, tys):
+                self.want(tys[0], "int", "index")
+                return ("(idx %s %s)" % (tab, ns[0]), "int", False)
+            return self.with_vals([e[2]], env, f)
+        if k == "method":
+            recv, nm = e[1], e[2]
+            if nm == "len" and recv[0] == "field" and recv[1] == ("path", ["self"]):
+                if not self.has_self:
+                    self.fail("`self` in a function without a self parameter")
+                p = recv[2] + "_len"
+                if p in self.idents:
+                    self.fail("name clash for the length parameter " + p)
+                if p not in self.fieldlens:
+                    self.fieldlens.append(p)
+                return ([], p, "int", True)
+            if nm in INTRINSICS:
+                def f(ns, tys):
+                    self.want(tys[0], "int", "receiver of " + nm)
+                    return ("(%s %s)" % (INTRINSICS[nm], ns[0]), "int", True)
+                return self.with_vals([recv], env, f)
+            self.fail("unsupported method call `.%s()`" % nm)
+        if k == "field":
+            self.fail("unsupported field access `.%s`" % e[2])
+        if k == "call":
+            path, args = e[1], e[2]
+            fn = path[-1]
+            if len(path) >= 2 and path[-2] == "cmp" and fn in ("min", "max") and len(args) == 2:
+                def f(ns, tys):
+                    self.want(tys[0], "int", "argument of cmp::" + fn)
+                    self.want(tys[1], "int", "argument of cmp::" + fn)
+                    return ("(N.%s %s %s)" % (fn, ns[0], ns[1]), "int", True)
+                return self.with_vals(args, env, f)
+            if len(path) == 1:
+                if self.impl_ty:
+                    self.fail("call of the unqualified function `%s`" % fn)   # a `use`d name: not resolved here
+                qual, f_file = None, self.rel
+            elif path[-2] == "Self":
+                if not self.impl_ty:
+                    self.fail("`Self::` outside an impl")
+                qual, f_file = self.impl_ty, self.rel
+            else:
+                qual, f_file = path[-2], QUAL_FILE.get(path[-2])
+            if f_file is None:
+                self.fail("call of `%s`: unknown module or type" % "::".join(path))
+            key_ty = None if (qual is None or qual[0].islower()) else qual
+            target = self.known.get((f_file, key_ty, fn))
+            if target is None and f_file == "bits.rs" and key_ty is None and fn in FUN_NAMES:
+                target = ("f_" + fn, ["int"] * self.known[("Funs.v", fn)], "int")
+            if target is None:
+                self.fail("call of `%s`, which is not a translated function" % "::".join(path))
+            gname, ptys, rty = target
+
+            def f(ns, tys):
+                if list(tys) != list(ptys):
+                    self.fail("call of `%s`: argument types %s, expected %s" % ("::".join(path), list(tys), list(ptys)))
+                return ("(%s m%s)" % (gname, "".join(" " + n for n in ns)), rty, False)
+            return self.with_vals(args, env, f)
+        if k == "if":
+            return self.value_if(e, env)
+        if k == "block":
+            return self.value_block(e[1], env)
+        self.fail("unsupported expression")
+
+    def value_block(self, blk, env):
+        """A block in value position: `let`s of new names and a tail expression."""
+        items, tail = blk
+        if tail is None:
+            self.fail("block in value position without a tail expression")
+        env2 = dict(env)
+        binds = []
+        for it in items:
+            if it[0] != "let":
+                self.fail("only `let` statements are supported inside a block in value position")
+            r, env2, binder = self.let_binding(it, env2, inner=env)
+            binds.extend(r[0])
+            binds.append((self.monadic(r), binder))
+        r = self.expr(tail, env2)
+        binds = binds + r[0]
+        if items and r[3]:
+            # the value may mention names local to the block: fix it before they can be rebound by a sibling block
+            x = self.fresh()
+            return (binds + [(self.monadic(r), x)], x, r[2], True)
+        return (binds, r[1], r[2], r[3])
+
+    def value_if(self, e, env):
+        _, c, a, b = e
+        if b is None:
+            self.fail("`if` without `else` in value position")
+        rc = self.expr(c, env)
+        self.want(rc[2], "bool", "condition")
+        ra, rb = self.value_block(a, env), self.value_block(b, env)
+        if ra[2] != rb[2]:
+            self.fail("branches of `if` have different types")
+        binds = []
+        x = self.atom(rc, binds)
+        if ra[3] and rb[3] and not ra[0] and not rb[0]:
+            return (binds, "(if %s then %s else %s)" % (x, ra[1], rb[1]), ra[2], True)
+        # whatever the branches run stays inside the branches
+        return (binds, "(if %s then %s else %s)" % (x, self.inline(ra), self.inline(rb)), ra[2], False)
+
+    def let_binding(self, it, env, inner=None):
+        """-> (translated initialiser, new env, binder text). `inner`: the env outside the current nested block,
+        whose variables must not be shadowed there (the shadowing would leak into the duplicated continuation)."""
+        _, pat, mut, ty, e = it
+        r = self.expr(e, env)
+        if ty is not None and ty != r[2]:
+            self.fail("let with type annotation %s but initialiser of type %s" % (ty, r[2]))
+        env2 = dict(env)
+        names = [pat[1]] if pat[0] == "name" else pat[1]
+        tys = [r[2]] if pat[0] == "name" else (list(r[2][1]) if isinstance(r[2], tuple) else None)
+        if tys is None or len(tys) != len(names) or len(set(names)) != len(names):
+            self.fail("tuple pattern does not match its initialiser")
+        for nm, t in zip(names, tys):
+            if inner is not None and nm in inner:
+                self.fail("`let %s` inside a nested block shadows an outer variable" % nm)
+            if nm in self.fieldlens or nm == "self":
+                self.fail("unsupported variable name `%s`" % nm)
+            env2[nm] = (self.cname(nm), t, mut)
+        binder = env2[names[0]][0] if pat[0] == "name" else "'(%s)" % ", ".join(env2[n][0] for n in names)
+        return r, env2, binder
+
+    def body(self, blk, env, outer, k, ind):
+        """Statements in statement position. k(env, ind) gives the text of what follows the block (None: this block
+        ends the function, so it must produce the result). Returns the text of a term of type res <return type>."""
+        items, tail = blk
+
+        def result(e, env, pad, what):
+            r = self.expr(e, env)
+            if r[2] != self.ret:
+                self.fail("%s has type %s, the signature says %s" % (what, r[2], self.ret))
+            return self.wrap(r[0], pad + self.monadic(r), pad)
+
+        def go(j, env, ind):
+            pad = "  " * ind
+            if j == len(items):
+                if tail is not None:
+                    if tail[0] == "if":
+                        return self.stmt_if(tail, env, k, ind)
+                    if k is not None:
+                        self.fail("a block in statement position has a value")
+                    return result(tail, env, pad, "result")
+                if k is None:
+                    self.fail("control reaches the end of the function without a value")
+                return k(env, ind)
+            it = items[j]
+            if it[0] == "let":
+                r, env2, binder = self.let_binding(it, env, inner=outer)
+                return self.wrap(r[0] + [(self.monadic(r), binder)], go(j + 1, env2, ind), pad)
+            if it[0] == "assign":
+                _, nm, op, e = it
+                if nm not in env:
+                    self.fail("assignment to unknown variable `%s`" % nm)
+                cn, ty, mut = env[nm]
+                if not mut:
+                    self.fail("assignment to immutable variable `%s`" % nm)
+                r = self.expr(("bin", op, ("path", [nm]), e) if op else e, env)
+                if r[2] != ty:
+                    self.fail("assignment changes the type of `%s`" % nm)
+                return self.wrap(r[0] + [(self.monadic(r), cn)], go(j + 1, env, ind), pad)
+            if it[0] == "return":
+                return result(it[1], env, pad, "returned value")
+            if it[0] == "ifs":
+                # variables declared inside the branches are out of scope afterwards: continue with the env before
+                return self.stmt_if(it[1], env, lambda env_after, ind2: go(j + 1, env, ind2), ind)
+            self.fail("unsupported statement")
+        return go(0, env, ind)
+
+    def stmt_if(self, e, env, k, ind):
+        """`if` in statement position; what follows it (k) is duplicated into both branches, so that assignments
+        and early returns inside the branches need no encoding."""
+        _, c, a, b = e
+        pad = "  " * ind
+        r = self.expr(c, env)
+        self.want(r[2], "bool", "condition")
+        binds = []
+        x = self.atom(r, binds)
+        ta = self.body(a, env, env, k, ind + 1)
+        if b is None:
+            if k is None:
+                self.fail("`if` without `else` at the end of the function")
+            tb = k(env, ind + 1)
+        else:
+            tb = self.body(b, env, env, k, ind + 1)
+        return self.wrap(binds, "%s(if %s then\n%s\n%selse\n%s)" % (pad, x, ta, pad, tb), pad)
+
+    def translate(self):
+        params, self.has_self, self.ret = self.parse_sig()
+        blk = self.parse_block_top()
+        env = {}
+        for pn, ty in params:
+            env[pn] = (self.cname(pn), ty, False)
+        text = self.body(blk, env, None, None, 1)
+        tyname = lambda t: {"int": "N", "bool": "bool"}[t] if not isinstance(t, tuple) else "(%s)" % " * ".join(tyname(x) for x in t[1])
+        ps = [(env[pn][0], tyname(ty)) for pn, ty in params] + [(p, "N") for p in self.fieldlens]
+        sig = "Definition f2_%s (m : mode)%s : res %s :=\n" % (self.gname, "".join(" (%s : %s)" % p for p in ps), tyname(self.ret))
+        ptys = [ty for _, ty in params] + ["int"] * len(self.fieldlens)
+        return sig + text + ".\n", ptys, self.ret
+
+    def parse_block_top(self):
+        self.t = self.t + ["}"]
+        blk = self.parse_block()
+        if self.i != len(self.t):
+            self.fail("trailing tokens after the body")
+        return blk
+
+
+def gen_funs2(consts):
+    s = HEADER % "the straight-line integer functions listed in tools/gen.py (FUNS2)"
+    s += "From Coq Require Import NArith Bool.\nRequire Import SDS.Model.Mach SDS.Model.Bits SDS.gen.Consts SDS.gen.Tables SDS.gen.Funs.\nOpen Scope N_scope.\n\n"
+    s += "(* usize arithmetic in a build mode, as in Funs.v; `%` by zero panics in every mode, like `/` *)\n"
+    s += "Definition f2_urem (m : mode) (a b : N) : res N :=\n  if b =? 0 then Panic POverflow else Ok (a mod b).\n\n"
+    known = {}
+    bits = read("bits.rs")
+    for fn in FUN_NAMES:
+        mm = re.search(r"pub fn " + fn + r"\s*\(([^)]*)\)", bits)
+        if not mm:
+            raise GenError("helper not found: " + fn)
+        known[("Funs.v", fn)] = len([p for p in mm.group(1).split(",") if p.strip()])
+    for gname, rel, impl_ty, name in FUNS2:
+        sig, body = find_fn(rel, impl_ty, name)
+        f = Fn2(gname, rel, impl_ty, name, sig, body, consts, known)
+        text, ptys, ret = f.translate()
+        src = re.sub(r"\s+", " ", "fn %s%s { %s }" % (name, sig, body.strip())).replace("(*", "( *").replace("*)", "* )")
+        s += "(* %s%s:\n   %s *)\n%s\n" % (rel, " impl " + impl_ty if impl_ty else "", src, text)
+        known[(rel, impl_ty, name)] = ("f2_" + gname, ptys, ret)
+    return s
+
+
 def fingerprints():
     """sha256 of every fn body in src (comments and whitespace removed), keyed by file::impl header::fn name.
     Informational: check.py widens the correspondence run of a property when a function in its anchor files
@@ -602,6 +1387,9 @@ def fingerprints():
     return out
 
 
+GEN_FILES = ["Tables.v", "Consts.v", "Layout.v", "TempName.v", "Funs.v", "Funs2.v", "MmapCfg.v"]
+
+
 def main():
     os.makedirs(OUT, exist_ok=True)
     report = {"changed": [], "errors": []}
@@ -611,15 +1399,16 @@ def main():
         layout, _ = gen_layout()
         tempname, _ = gen_tempname()
         funs = gen_funs(cmap)
+        funs2 = gen_funs2(cmap)
         mmapcfg = gen_mmapcfg()
     except GenError as e:
         print("GEN-ERROR: %s" % e)
         sys.exit(2)
-    for name, content in [("Tables.v", tables), ("Consts.v", consts), ("Layout.v", layout), ("TempName.v", tempname), ("Funs.v", funs), ("MmapCfg.v", mmapcfg)]:
+    for name, content in [("Tables.v", tables), ("Consts.v", consts), ("Layout.v", layout), ("TempName.v", tempname), ("Funs.v", funs), ("Funs2.v", funs2), ("MmapCfg.v", mmapcfg)]:
         if write_if_changed(os.path.join(OUT, name), content):
             report["changed"].append(name)
     h = hashlib.sha256()
-    for name in ["Tables.v", "Consts.v", "Layout.v", "TempName.v", "Funs.v", "MmapCfg.v"]:
+    for name in GEN_FILES:
         with open(os.path.join(OUT, name), "rb") as f:
             h.update(f.read())
     report["sha256"] = h.hexdigest()
@@ -632,7 +1421,7 @@ def main():
         # input when the files generated from a changed source no longer build (never to accept anything)
         bdir = os.path.join(os.path.dirname(os.path.abspath(__file__)), "gen.baseline")
         os.makedirs(bdir, exist_ok=True)
-        for name in ["Tables.v", "Consts.v", "Layout.v", "TempName.v", "Funs.v", "MmapCfg.v"]:
+        for name in GEN_FILES:
             shutil.copy(os.path.join(OUT, name), os.path.join(bdir, name))
     changed = []
     if os.path.exists(base_path):
